@@ -494,6 +494,20 @@ Definition unwind_tables (o : tlorder) (tb : tables) : tables :=
   | _ => mkTables (fun w m => unwind_cls w m (lk tb w m)) (dk tb)
   end.
 
+(** * Installing a stack: `Dispatch::new(stack)` or `Dispatch::from_static(&'static stack)`
+    How many `on_register_dispatch` notifications each constructor issues is counted by the translator (directly in the
+    constructor, or through `callsite::register_dispatch`). *)
+Inductive install := INew | IFromStatic.
+Definition install_name (i : install) : string := match i with INew => "new" | IFromStatic => "from_static" end.
+Definition install_count (i : install) : N :=
+  match find (fun kv => String.eqb (fst kv) (install_name i)) Gen_forwarding.gen_install_counts with
+  | Some (_, n) => n
+  | None => 99
+  end.
+Fixpoint repeat_log (n : nat) (l : list entry) : list entry := match n with O => [] | S k => l ++ repeat_log k l end.
+Definition reg_log (tb : tables) (c : coll) (i : install) : list entry :=
+  repeat_log (N.to_nat (install_count i)) (fst (call (coll_obj tb c) on_register_dispatch arg0)).
+
 (** A workload whose ops from index [k] on run inside a Drop impl while a panic propagates (caught at the top). *)
 Definition run_case_u (tb : tables) (o : tlorder) (c : coll) (ops : list op) (k : nat) : list entry * list entry * list out :=
   let ob := coll_obj tb c in
@@ -520,3 +534,7 @@ Definition beh_of (ints : list N) (en ev : list bool) (h : hint) (close_mask : N
 (** The `Registry` as a root; [closes] = the ops (by position in the workload) whose `try_close` it answers with `true`. *)
 Definition beh_registry (close_of : N -> bool) : beh :=
   mkBeh (fun _ => IAlways) (fun _ => true) (fun _ => true) None close_of (fun id => id) true.
+
+(** The same for a stack installed with constructor [i]. *)
+Definition run_case_i (tb : tables) (o : tlorder) (c : coll) (ops : list op) (k : nat) (i : install) : list entry * list entry * list out :=
+  match run_case_u tb o c ops k with (b, _, r) => (b, reg_log tb c i, r) end.
